@@ -425,6 +425,40 @@ def check_entities(ctx, prog, f):
                     vals = [const_val(w) for x in ir.stmt_exprs(st['then']) for w in walk_expr(x) if w.get('k') == 'int' and w.get('chr')]
                     if cmp_ and len(lits) == 1 and len(vals) == 1:
                         ents.setdefault(bytes(lits[0]['b']).decode('latin-1'), vals[0] & 255)
+    # when decode() goes through a look-up helper (`findEntity(ref, '?')`), the helper is interpreted on every name the encoder
+    # writes and on two it does not: what it returns must be what the table says (a search that never reaches an entry loses it)
+    lookup_bad = None
+    try:
+        import scansim
+        for e in fn_exprs(f):
+            if not (e.get('k') == 'call' and e.get('fn') and not e.get('clsp') and len(e.get('a') or []) == 2 and const_val(e['a'][1]) is not None):
+                continue
+            hs = [h for h in prog.fn(e['fn'], e.get('sig')) if h.get('body') and (h.get('file') or '') == (f.get('file') or '') and len(h['params']) == 2]
+            if not hs or not any(w.get('k') == 'var' and w.get('q') in prog.globals for w in fn_exprs(hs[0])):
+                continue
+            h = hs[0]
+            dflt = const_val(e['a'][1]) & 255
+            pt0 = T(h, h['params'][0]['t'])
+            for nm in sorted(set(list(effective.values()) + ['zz', 'a'])):
+                bufs = {}
+                r = scansim.Run(prog, h, bufs, int_params={h['params'][1]['id']: dflt}, objects=True, methods={'*': 'interp'})
+                if pt0.get('ptr'):
+                    bufs['N'] = [ord(c) for c in nm] + [0]
+                    r.vars[h['params'][0]['id']] = ('P', 'N', 0)
+                else:
+                    bufs[('O', h['params'][0]['id'])] = [ord(c) for c in nm] + [0]
+                    r.objlen[h['params'][0]['id']] = len(nm)
+                    r.strobjs.add(h['params'][0]['id'])
+                got = r.run()
+                ctx.evaluations += 1
+                want = ents.get(nm, dflt)
+                if isinstance(got, int) and (got & 255) != want and lookup_bad is None:
+                    lookup_bad = (h, nm, got & 255, want)
+    except (scansim.Unsupported, scansim.OOB, TypeError, KeyError, IndexError, ValueError) as u:
+        ctx.info['entity_lookup'] = 'helper outside the interpreted fragment: %s' % u
+    if lookup_bad:
+        h, nm, got, want = lookup_bad
+        ctx.violation('C07.entities', h['pq'], 'decode:the entity look-up finds every name of the table', fwhere(h), '%s("%s") returns %r, the table says %r: `&%s;` - which the encoder writes for that character - decodes to the wrong character' % (h['n'], nm, chr(got), chr(want), nm))
     bad = [(chr(b), n) for b, n in effective.items() if ents.get(n) != b]
     ctx.check(not bad, 'C07.entities', f['pq'], 'decode:entity table inverts the encoder', fwhere(f), 'entities %s' % sorted(ents), 'the decoder\'s entity table does not map %s back to the byte the encoder replaced' % bad)
     # attributes written inside double quotes
